@@ -3,12 +3,14 @@ package p08
 
 import (
 	"bytes"
+	"context"
 	"fmt"
 	"os"
 	"os/exec"
 	"path/filepath"
 	"strings"
 	"testing"
+	"time"
 
 	"pgregory.net/rapid"
 	"verif/harness/corpus"
@@ -110,7 +112,7 @@ func checkCase(c Case) *h.Failure {
 			return mk("outcome-differs", fmt.Sprintf("repetition %d ends differently: %q vs %q", i+1, first.outcome, o.outcome))
 		}
 	}
-	if c.CLI {
+	if c.CLI && first.outcome != "budget" { // a run that needs the fuel to end would never end in a real process
 		return cli(c)
 	}
 	return nil
@@ -127,11 +129,16 @@ func cli(c Case) *h.Failure {
 	os.WriteFile(f, []byte(c.Src), 0o644) //nolint:errcheck
 	var first string
 	for i := 0; i < 3; i++ {
-		cmd := exec.Command(bin, "run", "--skip-sleep", "--rand-seed", "7", "--svg-out", "-", f)
+		ctx, cancel := context.WithTimeout(context.Background(), 30*time.Second)
+		defer cancel()
+		cmd := exec.CommandContext(ctx, bin, "run", "--skip-sleep", "--rand-seed", "7", "--svg-out", "-", f)
 		cmd.Stdin = strings.NewReader(strings.Join(c.Inputs, "\n") + "\n\n\n\n")
 		var so, se bytes.Buffer
 		cmd.Stdout, cmd.Stderr = &so, &se
 		err := cmd.Run()
+		if ctx.Err() != nil {
+			return nil // did not finish: no verdict
+		}
 		code := 0
 		if err != nil {
 			code = -1
@@ -285,7 +292,9 @@ func TestProp(t *testing.T) {
 			ncli++
 			ctx.Rec.Add("fresh_process_cases", 1)
 		}
+		done := h.Watch(c.Src, 60*time.Second)
 		fl := checkCase(c)
+		done()
 		_, errs, _ := rec.SafeParse(c.Src)
 		if errs != nil {
 			classes = append(classes, "rejected")
